@@ -167,7 +167,7 @@ fn main() {
                     };
                     d.step(&step);
                     done.push(steps::step_to_json(&step));
-                    preds.push(json!({"res":h["res"],"evk":h["evk"]}));
+                    preds.push(json!({"res":h["res"],"evk":h["evk"],"unk":h["unk"].as_bool().unwrap_or(false)}));
                 }
                 writeln!(pf, "{}", json!({"tr":i,"pred":preds})).unwrap();
                 write_trace(&mut tf, &mut sf, i as u64, &cfg, i as u64, &done, &d, &mut nlines);
